@@ -151,6 +151,50 @@ func checkC17(p *Prog, r *Report) {
 		}
 	}
 	if flag == nil {
+		// an integer status or failure counter carried through the loop: it starts at 0 and an iteration never
+		// sets it back to 0 (every loop-carried value is itself, itself plus something, or a non-zero constant)
+		for _, in := range header.Instrs {
+			ph, ok := in.(*ssa.Phi)
+			if !ok || ph.Comment == "rangeindex" {
+				continue
+			}
+			if b, ok := ph.Type().Underlying().(*types.Basic); !ok || b.Info()&types.IsInteger == 0 {
+				continue
+			}
+			var bad []string
+			var chk func(v ssa.Value, depth int)
+			chk = func(v ssa.Value, depth int) {
+				if v == ssa.Value(ph) || depth > 6 {
+					return
+				}
+				if c, ok := constInt(v); ok {
+					if c == 0 {
+						bad = append(bad, "set back to 0 inside the loop")
+					}
+					return
+				}
+				if p2, ok := v.(*ssa.Phi); ok {
+					for _, e := range p2.Edges {
+						chk(e, depth+1)
+					}
+					return
+				}
+				if bo, ok := v.(*ssa.BinOp); ok && bo.Op == token.ADD && (bo.X == ssa.Value(ph) || bo.Y == ssa.Value(ph)) {
+					return
+				}
+				bad = append(bad, "assigned "+sk(v))
+			}
+			for i, e := range ph.Edges {
+				if !header.Dominates(header.Preds[i]) {
+					if c, ok := constInt(e); !ok || c != 0 {
+						bad = append(bad, "does not start at 0")
+					}
+					continue
+				}
+				chk(e, 0)
+			}
+			r.Check("R17a", "translate status/counter "+ph.Comment+" only grows", ph.Pos(), len(bad) == 0, strings.Join(bad, "; "))
+		}
 		// no boolean flag (e.g. a failure counter): the exit status is decided by the inductive path rule below alone
 		r.Note("no loop-carried boolean error flag in %s: the phi-structure check is skipped, the inductive path rule decides", FuncName(tr))
 	} else {
@@ -215,11 +259,18 @@ func checkC17(p *Prog, r *Report) {
 			r.Fail("R17a", "translate returns only when no package failed", tr.Pos(), "translate never returns normally", "")
 		}
 	}
+	statusMode := false // translate returns the exit status and main passes it to os.Exit
 	for _, f := range p.FuncsIn(cmdGoosePkg) {
 		p.instrs(f, func(b *ssa.BasicBlock, i int, in ssa.Instruction) {
 			if c, ok := in.(*ssa.Call); ok && calleeName(c) == "os.Exit" {
 				r.Sites++
 				st, okc := constInt(c.Call.Args[0])
+				if tc, isCall := c.Call.Args[0].(*ssa.Call); isCall && calleeOf(&tc.Call) == tr && tr.Signature.Results().Len() == 1 {
+					// the status is computed by translate and returned: decided on translate's paths below
+					statusMode = true
+					r.OK("R17a", fmt.Sprintf("%s os.Exit status", f.Name()), instrPos(in), "the exit status is the result of "+tr.Name()+", decided on its returning paths")
+					return
+				}
 				r.Check("R17a", fmt.Sprintf("%s os.Exit status", f.Name()), instrPos(in), okc && st != 0, "os.Exit with status "+sk(c.Call.Args[0])+": every explicit exit of the command reports a failure, success is the normal return")
 			}
 		})
@@ -317,6 +368,41 @@ func checkC17(p *Prog, r *Report) {
 		if n != 1 || ip.Exit != "return" {
 			continue
 		}
+		if statusMode {
+			// the returned status: a failed package in this iteration needs a non-zero constant; a clean
+			// iteration may return 0 only with the incoming status known 0, or hand the incoming status on
+			nRetP++
+			code := ""
+			if len(ip.Ret) == 1 {
+				code = ip.Ret[0]
+			}
+			failed := false
+			for k := range ip.Rels {
+				if nilCmp(k, " != ", errPrefix) {
+					failed = true
+				}
+			}
+			var cv int64
+			_, err := fmt.Sscan(code, &cv)
+			isConst := err == nil && fmt.Sprint(cv) == code
+			switch {
+			case failed && !(isConst && cv != 0):
+				retBad = "translate returns the status " + code + " on a path on which a package failed (a non-zero constant is required): " + ip.Trace
+			case !failed && isConst && cv == 0:
+				in0 := false
+				for k := range ip.Rels {
+					if strings.Contains(k, "phi:") && !strings.Contains(k, "rangeindex") && (strings.HasSuffix(k, " == 0") || strings.HasPrefix(k, "0 == ") || strings.HasSuffix(k, " <= 0")) {
+						in0 = true
+					}
+				}
+				if !in0 {
+					retBad = "translate returns the constant 0 after an iteration without the fact that the status carried into the iteration was 0: " + ip.Trace
+				}
+			case !failed && !isConst && !strings.Contains(code, "phi:"):
+				retBad = "translate returns " + code + ", which is neither a constant nor the status carried through the loop: " + ip.Trace
+			}
+			continue
+		}
 		nRetP++
 		flagIn := false
 		for k := range ip.Rels {
@@ -346,7 +432,16 @@ func checkC17(p *Prog, r *Report) {
 	exitBad, nExit := "", 0
 	for _, ip := range bips {
 		if len(ip.eventsOf("os.Exit")) == 0 {
-			continue
+			nonZeroRet := false
+			if statusMode && ip.Exit == "return" && len(ip.Ret) == 1 {
+				var cv int64
+				if _, err := fmt.Sscan(ip.Ret[0], &cv); err == nil && fmt.Sprint(cv) == ip.Ret[0] && cv != 0 {
+					nonZeroRet = true
+				}
+			}
+			if !nonZeroRet {
+				continue
+			}
 		}
 		nExit++
 		cause := false
